@@ -11,7 +11,7 @@ use serde_json::{json, Value};
 use vph::fgen;
 use vph::refdec;
 
-pub const RULE: &str = "every frame of (1) the crate's encoder output over C01 sets (b),(d),(g),(h),(i) (thorough: + (a),(e)), (2) every valid fgen stream within 3 (thorough 4) deviations, (3) every fgen stream with one malformation (valid checksums) on the plain stream and its single deviations, is cut out and wrapped into a one-frame stream whose STREAMINFO leaves the total unknown; Frame::read and the streaming decoder must both accept or both reject it; for accepted frames every subframe expands to exactly block-size samples, inverse decorrelation of those samples equals the streaming decoder's output, and Frame::write reproduces the original bytes whenever the independent decoder reports a minimal-length coded number and zero padding bits";
+pub const RULE: &str = "every frame of (1) the crate's encoder output over C01 sets (b),(d),(g),(h),(i),(j) (thorough: + (a),(e)), (2) every valid fgen stream within 3 (thorough 4) deviations, (3) every fgen stream with one malformation (valid checksums) on the plain stream and its single deviations, is cut out and wrapped into a one-frame stream whose STREAMINFO leaves the total unknown; Frame::read and the streaming decoder must both accept or both reject it; for accepted frames every subframe expands to exactly block-size samples, inverse decorrelation of those samples equals the streaming decoder's output, and Frame::write reproduces the original bytes whenever the independent decoder reports a minimal-length coded number and zero padding bits";
 pub const ASSUMPTIONS: &[&str] = &["frames are judged individually under the original STREAMINFO with total/MD5 cleared; stream-level rules (numbering, totals, short-block placement) are C05's business"];
 pub fn bounds(quick: bool) -> Value {
     json!({"crate_output_sets": if quick { "b,d,g,h,i" } else { "a,b,d,e,g,h,i" }, "valid_deviations": if quick { 3 } else { 4 }, "malformed": "1 malformation × ≤1 valid deviation"})
@@ -134,7 +134,7 @@ fn run_stream(acc: &mut Acc, class: &str, bytes: &[u8], frames: &[(usize, usize)
 
 pub fn run(ctx: &Ctx, acc: &mut Acc) {
     // (1) crate output
-    enumerate(ctx, if ctx.quick { "bdghi" } else { "abdeghi" }, &mut |c: &EncCase| {
+    enumerate(ctx, if ctx.quick { "bdghij" } else { "abdeghij" }, &mut |c: &EncCase| {
         if let Ok(bytes) = encode(c.w, &c.opt, &c.sig, c.pcm) {
             if let Ok(Ok(st)) = guarded(|| refdec::decode(&bytes)) {
                 let frames: Vec<(usize, usize)> = st.frames.iter().map(|f| (f.offset, f.len)).collect();
